@@ -84,6 +84,10 @@ func cmdCheck(args []string) int {
 		if *only != "" && j.Entry != *only {
 			continue
 		}
+		if *tier == "thorough" {
+			// the tier is a harness flag (wider universes): part of the job, so that replay files carry it
+			j.Flags = append(append([]string{}, j.Flags...), "thorough")
+		}
 		jobs = append(jobs, j)
 	}
 	outDir := filepath.Join(verifRoot(), "out", "runs", prop.ID)
@@ -137,9 +141,6 @@ func cmdCheck(args []string) int {
 			// jobs (the multiendpoint step harness gets 6x slower with it and has no slice reuse to find)
 			if j.Harness == "grpcgcp" || j.Harness == "e2e-checksum" {
 				a = append(a, "-flag", "appendCaps")
-			}
-			if *tier == "thorough" {
-				a = append(a, "-flag", "thorough")
 			}
 			cmd := exec.Command(exe, a...)
 			cmd.Env = append(os.Environ(), "VERIF_ROOT="+verifRoot())
